@@ -395,8 +395,13 @@ class ResNetwork(GeoNetwork):
 
         """
         # a sparse matrix for the admittance values
-        self.sparse_R = sparse.lil_matrix(
-            np.linalg.pinv(self.admittance_lapacian()))
+        # (singular values are cut off relative to the size of the matrix:
+        # the default `rcond=1e-15` keeps the Laplacian's zero singular value
+        # whenever its computed value exceeds 1e-15 * largest singular value,
+        # which then dominates R with a huge constant)
+        laplacian = self.admittance_lapacian()
+        self.sparse_R = sparse.lil_matrix(np.linalg.pinv(
+            laplacian, rcond=max(laplacian.shape) * np.finfo(float).eps))
 
         # the stored effective resistances belong to the previous R
         self._effective_resistances = None
